@@ -167,6 +167,7 @@ TA wide_pair_smaller(Rng& r, TA& bigger) {
 
 void gen_incl_pair(Rng& r, const Pool& pool, int max_states, bool sparse, TA& A, TA& B) {
 	TAOpts o; o.max_states = max_states; o.sparse = sparse; if (r.chance(1, 2)) o.max_rules = 3 * max_states + 3;
+	if (r.chance(1, 7)) o.max_rules = r.range(6, 12) * (max_states > 5 ? 5 : max_states);      // dense: many rules per state (several ways to match every rule; long-lived and short-lived macro-states side by side)
 	A = gen_ta(r, pool, o);
 	uint64_t x = r.below(100);
 	if (x < 40) { B = derive_ta(r, pool, A, r.chance(1, 2) ? 2 : 3); if (r.chance(1, 3)) B = derive_ta(r, pool, B, r.chance(1, 2) ? 2 : 3); }     // near miss
